@@ -83,7 +83,6 @@ func c03World(t *testing.T, p c03Params) rt.Result {
 	var nsent, ndeliv int
 	out := hz.Run(t, hz.Opts{Seed: p.Seed, HookMode: p.Hook}, func(w *hz.World) {
 		ps := hz.StdPeer("10.0.1.1")
-		ps.Hold = 90
 		ps.Passive = p.Dir == "in"
 		hr := rand.New(rand.NewPCG(p.Seed, 99))
 		notif := &corebgp.Notification{Code: uint8(1 + r.IntN(6)), Subcode: uint8(r.IntN(12)), Data: []byte{1, 2, 3}[:r.IntN(4)]}
@@ -108,11 +107,18 @@ func c03World(t *testing.T, p c03Params) rt.Result {
 		if p.Glue {
 			st = stOpenConfirm
 		}
-		s := bring(w, ps, p.Dir, st, 90)
+		v := pickVariety(r, p.Dir)
+		v.Slow = false // C03 has its own slow-callback variants
+		v.apply(&ps, p.Seed)
+		s := bringV(w, ps, p.Dir, st, v)
 		if s == nil {
 			return
 		}
 		rc := s.rc
+		sess0 := len(s.mon.Sessions)
+		if !p.Glue {
+			sess0--
+		}
 		base := len(rc.Msgs())
 		var stream []byte
 		var bounds []int
@@ -150,8 +156,9 @@ func c03World(t *testing.T, p c03Params) rt.Result {
 		w.Settle()
 
 		_, _, ss := s.mon.Snapshot()
+		ss = ss[sess0:]
 		if len(ss) != 1 {
-			w.Violate("expected exactly one session, plugin saw %d", len(ss))
+			w.Violate("expected exactly one session on this connection, plugin saw %d", len(ss))
 			return
 		}
 		want := sent
